@@ -71,6 +71,9 @@ func runC09(w *World, r *Report) {
 		undecidedf("C09: only %d functions reachable from the run roots (floor 150): call graph degenerate", nfn)
 	}
 
+	r.Rule("C09.no-container-on-compiled", "no run-path function calls a mutating method of a sync.Map / container/list that is a field of a compiled (shared) object", 0)
+	ruleNoContainerWriteOnCompiled(w, r, "C09.no-container-on-compiled", reach, compiled, roots)
+
 	r.Rule("C09.no-global-write", "no run-path function writes a package-level variable outside sync.Once", 1)
 	ruleNoGlobalWrite(w, r, "C09.no-global-write", reach, roots)
 
